@@ -357,6 +357,11 @@ def read_cval(v, hn: HintNames):
         if hn.known(src):
             return ["cast", hn.val(src)]       # the i32 cast the lowering puts in front of an index-typed value
         return read_cval(src, hn)
+    # constant expressions materialised by the lowering (pack_bitlist: shli / ori trees over constants)
+    if isinstance(v, OpResult) and isinstance(v.op, (arith.ShLIOp, arith.OrIOp)):
+        a, b = (read_cval(o, hn) for o in v.op.operands)
+        if a[0] == "const" and b[0] == "const":
+            return ["const", (a[1] << b[1]) if isinstance(v.op, arith.ShLIOp) else (a[1] | b[1])]
     raise Unreadable(f"csr operand {v} is neither a source value, a constant nor an index_cast of one")
 
 
@@ -433,7 +438,7 @@ def read_block(block, hn: HintNames):
         if op.results and not any(hn.known(r) for r in op.results):
             # an op introduced by the lowering: only address/zero constants and index casts are expected;
             # they are folded into the operands of the csr accesses
-            if isinstance(op, (arith.ConstantOp, arith.IndexCastOp)):
+            if isinstance(op, (arith.ConstantOp, arith.IndexCastOp, arith.ShLIOp, arith.OrIOp)):
                 continue
             raise Unreadable(f"unexpected new op {op.name}")
         out.append(accir.convert_op(op, hn))
